@@ -1158,6 +1158,10 @@ def correspondence(ctx):
     rcases = real_cases()
     for case in rcases:
         res = run_real_case(case)                     # Infrastructure propagates: exit 2
+        if real_oracle(res):
+            # real threads, real time: a failing run is repeated once before it is believed (DESIGN.md section 8)
+            c.count("real-run-repeated")
+            res = run_real_case(case)
         rres.append(res)
         rlines.append("life run " + " ".join(res["tokens"]))
     try:
@@ -1916,6 +1920,8 @@ def oracle_search(ctx, corr, broken):
 
     def check_real(case):
         res = run_real_case(case)
+        if real_oracle(res):
+            res = run_real_case(case)         # repeated once before it is believed
         r = real_oracle(res)
         if r and r[1] not in getattr(ctx, "known_signatures", set()):
             return (case, r[0], r[1])
